@@ -233,6 +233,12 @@ def integrate(
         raise ValueError("No recordings are set. Please set them.")
     rec_inds = module.recordings.rec_index.to_numpy()
     rec_states = module.recordings.state.to_numpy()
+    # Recordings of synaptic states refer to the global edge index, but synaptic states
+    # are stored in one array per synapse type.
+    rec_inds = [
+        module._edge_inds_to_type_inds(rec_state, rec_ind)
+        for rec_state, rec_ind in zip(rec_states, rec_inds)
+    ]
 
     # Shorten or pad stimulus depending on `t_max`.
     if t_max is not None:
